@@ -57,6 +57,8 @@ func run(r *common.Run) error {
 			c.scenarios()
 		case "nego":
 			c.negotiation()
+		case "minimise":
+			return c.minimise(os.Getenv("C09_MIN"))
 		case "replay":
 			lines, err := common.ReplayLines(os.Getenv("C09_REPLAYFILE"))
 			if err != nil {
